@@ -102,7 +102,8 @@ Compaction == /\ \/ Ev /\ S = "cmp.cycle.begin" /\ cmp' = "idle"
                  \/ Ev /\ S = "cmp.cycle.end" /\ cmp' = "idle"
               /\ UNCHANGED <<mode, next, pend, synced, logged, rot, sst, renamed, tbl>>
 
-Handled == {"h.reset", "h.retire", "wal.append.written", "wal.batch.written", "wal.batch.rec", "wal.sync.done", "wal.close.synced",
+Handled == {"h.reset", "h.retire", "h.error",    \* h.error: the harness could not stand for the stream (no action: rejected)
+             "wal.append.written", "wal.batch.written", "wal.batch.rec", "wal.sync.done", "wal.close.synced",
             "wal.append.done", "wal.batch.done", "sm.put.logged", "sm.del.logged", "sm.batch.logged", "sm.batch.entry",
             "sm.put.applied", "sm.del.applied", "sm.batch.applied", "sm.rotate.begin", "sm.rotate.marked", "sm.rotate.oldsafe",
             "wal.new", "sm.rotate.created", "sm.rotate.swapped", "sm.rotate.closed", "wal.setnext", "sst.finish.presync",
